@@ -545,13 +545,17 @@ def child_main():
 
 def leaf_strategy():
     feats = [f for f in dsl.ALL_FEATURES if f not in ('strarg',)]
-    small = dsl.tree_strategy(['cls', 'tok', 'empty', 'wb', 'meta', 'uni', 'ws', 'anchor', 'q', 'alt'], max_leaves=2)
+    small = dsl.tree_strategy(['cls', 'tok', 'empty', 'wb', 'meta', 'uni', 'ws', 'frag', 'anchor', 'q', 'alt'], max_leaves=2)
     clsleaf = st.one_of(dsl.simple_class_strategy(feats))
     # classes that print alike but are different values: the global word class vs. a union that merely prints as \w, and their partners
     wordish = st.sampled_from([['cls', ['word', True]], ['cls', ['word', False]], ['cls', ['butword', True]],
                                ['cls', ['or', ['word', True], ['named', 'AnyDigit']]], ['cls', ['or', ['word', True], ['c', '_']]],
                                ['cls', ['from', [['c', '-']]]], ['cls', ['from', [['c', 'é']]]], ['cls', ['named', 'AnyDigit']]])
-    return st.one_of(small, small, clsleaf, wordish)
+    # classes over a tiny alphabet (range-free, overlapping more often than not): what one operation leaves behind in a shared
+    # operand shows in the next operation on it
+    tiny = st.tuples(st.lists(st.sampled_from(list('abc-')), min_size=1, max_size=3, unique=True), st.booleans()).map(
+        lambda t: ['cls', ['butfrom' if t[1] else 'from', [['c', x] for x in t[0]]]])
+    return st.one_of(small, small, clsleaf, wordish, tiny)
 
 
 def op_strategy():
